@@ -6,6 +6,6 @@ PROFILE = {'p_write': 0.3}
 
 
 def main(tier, seed):
-    return dbtie.db_check("C01", tier, seed, PROFILE, 300, 6000, "Prop_C01",
+    return dbtie.db_check("C01", tier, seed, PROFILE, 500, 6000, "Prop_C01",
                           "user callables and re are an environment the theorems quantify over; the tie instantiates them with the twin table")
 
